@@ -41,9 +41,14 @@ type Engine struct {
 	decs          map[*ssa.Function]*DecSummary
 	preds         map[*ssa.Function]*PredSummary
 	hoistBusy     map[*ssa.Function]bool
+	invGen        int // incremented when an inductive field invariant is established
+	invSeen       int // generation the cached analyses were computed under
 	ctxFas        map[*ssa.Function]*FuncAn
 	ctxBusy       map[*ssa.Function]bool
 	countSums     map[*ssa.Function]*CountSummary
+	onceMemo      map[*ssa.Global]*onceInfo
+	onceDone      map[*ssa.Global]bool
+	initConst     map[*ssa.Global]map[string]*ssa.Const
 }
 
 func NewEngine(prog *ssa.Program, cg *callgraph.Graph, inModule func(*ssa.Function) bool, goarch string) *Engine {
@@ -120,6 +125,17 @@ func (e *Engine) Reachable(roots []*ssa.Function) []*ssa.Function {
 		}
 		for _, b := range f.Blocks {
 			for _, ins := range b.Instrs {
+				// a module function used as a value (a literal without free variables handed to sync.Once.Do, sort.Search …)
+				// may be called by whoever receives it
+				for _, op := range ins.Operands(nil) {
+					if op == nil || *op == nil {
+						continue
+					}
+					if c, ok := (*op).(*ssa.Function); ok && e.InModule(c) && c.Blocks != nil && !seen[c] {
+						seen[c] = true
+						work = append(work, c)
+					}
+				}
 				switch x := ins.(type) {
 				case ssa.CallInstruction:
 					for _, c := range e.Callees(x) {
@@ -330,6 +346,41 @@ func clip(s string) string {
 
 func (a *FuncAn) goalText(g Lin) string { return g.String() + " >= 0" }
 
+// fromUnclassifiedExtern: v is (a result of) a call all of whose callees are outside the module and neither trusted nor
+// intrinsic.
+func (a *FuncAn) fromUnclassifiedExtern(v ssa.Value) bool {
+	if ex, ok := v.(*ssa.Extract); ok {
+		v = ex.Tuple
+	}
+	call, ok := v.(*ssa.Call)
+	if !ok {
+		return false
+	}
+	cs := a.E.Callees(call)
+	if call.Call.IsInvoke() && len(cs) == 0 {
+		name := "(" + types.TypeString(call.Call.Value.Type(), nil) + ")." + call.Call.Method.Name()
+		_, trusted := trustedReason(name)
+		_, intr := intrinsics[name]
+		return !trusted && !intr
+	}
+	if len(cs) == 0 {
+		return false
+	}
+	for _, f := range cs {
+		if a.E.InModule(f) {
+			return false
+		}
+		name := FuncFullName(f)
+		if _, ok := trustedReason(name); ok {
+			return false
+		}
+		if _, ok := intrinsics[name]; ok {
+			return false
+		}
+	}
+	return true
+}
+
 // check proves all goals at block b; returns status text.
 func (a *FuncAn) check(b *ssa.BasicBlock, goals []Goal) (bool, string) {
 	if !a.Converged {
@@ -341,7 +392,7 @@ func (a *FuncAn) check(b *ssa.BasicBlock, goals []Goal) (bool, string) {
 	hoisted := ""
 	for _, g := range goals {
 		if !a.Entails(b, g.L) {
-			if why, ok := a.hoist(g.L); ok {
+			if why, ok := a.hoistWith(b, g.L, 2); ok {
 				hoisted = why
 				continue
 			}
@@ -407,8 +458,69 @@ func (a *FuncAn) factsText(b *ssa.BasicBlock, g Lin) string {
 }
 
 // Obligations enumerates and checks the obligations of one analysed function.
+// survivedState: the facts on entry of ins's block plus, for every index / slice expression that precedes ins in the
+// block, the bound it checked at run time (execution reaches ins only if it did not panic). nil when there is none.
+func (a *FuncAn) survivedState(ins ssa.Instruction) *State {
+	b := ins.Block()
+	in := a.in[b]
+	if in == nil {
+		return nil
+	}
+	var s *State
+	add := func(l Lin) {
+		if s == nil {
+			s = in.Clone()
+		}
+		s.AddFact(l)
+	}
+	for _, x := range b.Instrs {
+		if x == ins {
+			break
+		}
+		switch y := x.(type) {
+		case *ssa.IndexAddr:
+			if _, _, isInt := a.E.intInfo(y.Index.Type()); !isInt {
+				continue
+			}
+			i := a.Lin(y.Index)
+			add(Add(a.LenOf(y.X), i, -1).plus(-1))
+			add(i)
+		case *ssa.Slice:
+			// what a slice expression that did not panic establishes: 0 <= low <= high <= cap (len for strings/arrays)
+			l := a.CapOf(y.X)
+			if y.High != nil {
+				add(Add(l, a.Lin(y.High), -1))
+			}
+			if y.Low != nil {
+				add(Add(l, a.Lin(y.Low), -1))
+				add(a.Lin(y.Low))
+			}
+		}
+	}
+	return s
+}
+
+// analyzeFresh: the contextual analysis of f, recomputed when an inductive field invariant was established while it
+// ran (analyses cached before that did not know the bound: they are sound but weaker).
+func (e *Engine) analyzeFresh(f *ssa.Function) *FuncAn {
+	for i := 0; ; i++ {
+		if e.invGen == e.invSeen || i >= 4 {
+			a := e.AnalyzeCtx(f)
+			if e.invGen == e.invSeen || i >= 4 {
+				return a
+			}
+		}
+		e.invSeen = e.invGen
+		e.fas = map[*ssa.Function]*FuncAn{}
+		e.ctxFas = map[*ssa.Function]*FuncAn{}
+		e.sums = map[*ssa.Function]*Summary{}
+		e.decs = map[*ssa.Function]*DecSummary{}
+		e.preds = map[*ssa.Function]*PredSummary{}
+	}
+}
+
 func (e *Engine) Obligations(f *ssa.Function) []*Obl {
-	a := e.AnalyzeCtx(f)
+	a := e.analyzeFresh(f)
 	if a == nil {
 		return nil
 	}
@@ -416,6 +528,22 @@ func (e *Engine) Obligations(f *ssa.Function) []*Obl {
 	add := func(ins ssa.Instruction, kind, want string, goals []Goal) *Obl {
 		o := &Obl{Fn: f, Instr: ins, Kind: kind, Want: want}
 		ok, why := a.check(ins.Block(), goals)
+		if !ok {
+			// facts established earlier in the same block by constructs that did not panic (`_ = b[2]` before b[0], b[1])
+			if s2 := a.survivedState(ins); s2 != nil {
+				all := true
+				for _, g := range goals {
+					if !a.proverFor(s2).Entails(g.L) {
+						all = false
+						break
+					}
+				}
+				delete(a.provers, s2)
+				if all {
+					ok, why = true, "implied by an earlier index / slice expression of the same block that did not panic"
+				}
+			}
+		}
 		o.Why = why
 		if !ok {
 			o.Status = Failed
@@ -455,6 +583,11 @@ func (e *Engine) Obligations(f *ssa.Function) []*Obl {
 		case isInterfaceSliceElement(v):
 			o.Why = "assumption A5: interface elements of a payload slice are non-nil (" + a.valName(v) + ")"
 			o.Assumed = "A5"
+		case a.fromUnclassifiedExtern(v):
+			// what an external callee outside the trusted table returns is not known to be nil or non-nil; the callee
+			// itself is reported as the undecided obligation
+			o.Status = Unsupported
+			o.Why = "result of an unclassified external callee: " + a.valName(v)
 		default:
 			o.Status = Failed
 			o.Why = "no dominating non-nil check for " + a.valName(v)
@@ -518,13 +651,26 @@ func (e *Engine) Obligations(f *ssa.Function) []*Obl {
 				if d := Add(hi, lo, -1); !(d.IsConst() && d.C >= 0) {
 					goals = append(goals, Goal{d, "low <= high"})
 				}
-				if x.High != nil {
-					if d := Add(ln, hi, -1); !(d.IsConst() && d.C >= 0) {
-						goals = append(goals, Goal{d, "high <= len"})
+				// the upper limit of a slice expression on a slice is its capacity
+				limit, limName := ln, "len"
+				if _, isSl := x.X.Type().Underlying().(*types.Slice); isSl {
+					limit, limName = a.CapOf(x.X), "cap"
+				}
+				if x.High != nil && x.Max == nil {
+					if d := Add(limit, hi, -1); !(d.IsConst() && d.C >= 0) {
+						// proved against the length first (the common form, and the facts are about lengths)
+						if dl := Add(ln, hi, -1); limName == "cap" && (dl.IsConst() && dl.C >= 0 || a.Entails(x.Block(), dl)) {
+							goals = append(goals, Goal{dl, "high <= len"}) // high <= len <= cap
+						} else {
+							goals = append(goals, Goal{d, "high <= " + limName})
+						}
 					}
 				}
 				if x.Max != nil {
 					goals = append(goals, Goal{Add(a.Lin(x.Max), hi, -1), "high <= max"})
+					if d := Add(limit, a.Lin(x.Max), -1); !(d.IsConst() && d.C >= 0) {
+						goals = append(goals, Goal{d, "max <= " + limName})
+					}
 				}
 				if len(goals) == 0 {
 					continue
